@@ -16,10 +16,10 @@ Mirrors, as they are:
   pkg/segment/query/processor/wherecommand.go, evalcommand.go   comparison / arithmetic of one int column with a constant
 
 What is abstracted (declared in lib/props.py): a parallel chain is represented by the RESULT it delivers to the merger (its
-sorted, limited rows; its partial aggregates); the aliasing between the sort processors' retained results and the merger's
-Discards, and everything that depends on it (a second read of the merger after Rewind), is inside the model only for the
-input class `SecondPassSafe` — outside it the unchanged code deviates from the property (known findings) and the Oracle
-prints no rows.  Ties between sort keys are excluded by the op format (the last key is row-unique).
+sorted, limited rows; its partial aggregates).  sort, stats, tail and the stats merger keep their final result and hand out
+copies (IQR.Copy), so a value-semantic model is exact also for a second read after Rewind.  Ties between sort keys are
+excluded by the op format (the last key is row-unique).  `setupOld` keeps the merger settings SetupQueryParallelism used
+before the repair (less and limit taken from the propagated mergeSettings of the sort) for the counterexample theorems.
 Core Lean only.
 -/
 import SigModel.Model.Pipe
@@ -144,8 +144,9 @@ structure Shape where
   merger : Merger
 deriving Repr, DecidableEq
 
-/-- SetupQueryParallelism for GOMAXPROCS = k; `limitAt i` = the limit of the sort at position i -/
-def setup (k : Nat) (firstStats : Bool) (dps : List Flags) (limitAt : Nat → Nat) : Shape :=
+/-- SetupQueryParallelism for GOMAXPROCS = k; `limitAt i` = the limit of the sort at position i.
+`useSettings = true`: the code before the repair, which gave the merger the sort's (propagated) mergeSettings. -/
+def setupWith (useSettings : Bool) (k : Nat) (firstStats : Bool) (dps : List Flags) (limitAt : Nat → Nat) : Shape :=
   let r := canParallelSearch dps
   let can := r.1 && !firstStats
   let mi := if firstStats then 0 else r.2
@@ -154,11 +155,16 @@ def setup (k : Nat) (firstStats : Bool) (dps : List Flags) (limitAt : Nat → Na
   let merger : Merger :=
     if mergeable then
       (if (dps[mi]?).any (fun d => d.name == "stats" || d.name == "timechart") then .stats
-       else let ms := (mergeSettingsOf dps limitAt).getD mi {}; .limit ms.less ms.limit)
+       else if useSettings then (let ms := (mergeSettingsOf dps limitAt).getD mi {}; .limit ms.less ms.limit)
+       else .limit (.sortAt mi) (some (limitAt mi)))      -- sorter.lessDirectRead, sorter.GetLimit()
     else .none
   let extra := if mergeable then 1 else 0
   { can := r.1, idx := r.2, firstStats := firstStats, n := par,
     lens := (dps.length + extra) :: List.replicate (par - 1) (mi + extra), merger := merger }
+
+def setup := setupWith false
+/-- before the repair -/
+def setupOld := setupWith true
 
 /-! ## 2. commands with a meaning -/
 
@@ -575,7 +581,7 @@ def deal (n : Nat) : List (Nat × Nat) → Table → List (List Table) → List 
 
 def shares (n : Nat) (d : List (Nat × Nat)) (t : Table) : List (List Table) := deal n d t (List.replicate n [])
 
-/-- index (among the commands) of the command the chains are merged at on the unchanged code; none: one chain -/
+/-- index (among the commands) of the command the chains are merged at (CanParallelSearch over the commands); none: one chain -/
 def mergeIdx : List PCmd → Nat → Option Nat
   | [], _ => none
   | c :: cs, i =>
@@ -594,7 +600,7 @@ def runPlan (kf : List Val → Nat) (n : Nat) (cs : List PCmd) (sh : List (List 
   if n ≤ 1 then (runChainBatches kf cs (sh.headD [])).flatten
   else
     match mergeIdx cs 0 with
-    | none => (runChainBatches kf cs (sh.headD [])).flatten   -- unreachable on the unchanged plan
+    | none => (runChainBatches kf cs (sh.headD [])).flatten   -- unreachable: such a plan has one chain
     | some mi =>
       let pre := cs.take (mi + 1)
       let post := cs.drop (mi + 1)
@@ -612,75 +618,5 @@ def runPlan (kf : List Val → Nat) (n : Nat) (cs : List PCmd) (sh : List (List 
           | p :: ps => [groupsRows aggs by_ (ps.foldl (groupsMerge aggs) p)]
         (runChainBatches kf post merged).flatten
       | _ => []
-
-/-! ## 6. input classes in which the unchanged code is known to deviate (known_findings.txt) -/
-
-def isRetained : PCmd → Bool
-  | .sort _ _ | .stats _ _ | .base (.tail _) => true
-  | _ => false
-
-/-- results of the chains that were dealt a batch (documented meaning of `cs` on the chain's share) -/
-def chainResults (cs : List PCmd) (sh : List (List Table)) : List Table :=
-  (sh.filter (fun s => !s.isEmpty)).map (fun s => (semChain cs s.flatten).getD [])
-
-/-- every chain read at most one batch, and the first merge round (until the first chain is drained) delivers `limit` rows -/
-def secondPassSafe (upto : List PCmd) (l : Nat) (ks : List (String × Bool)) (sh : List (List Table)) : Bool :=
-  if sh.any (fun s => s.length > 1) then false else
-  let qs := chainResults upto sh
-  if qs.length ≤ 1 then true
-  else if qs.any List.isEmpty then false
-  else
-    let union := qs.flatten.mergeSort (leKeys ks)
-    let pos (q : Table) : Nat :=
-      match q.getLast? with
-      | none => 0
-      | some last => (union.zipIdx.foldl (fun acc (u : Row × Nat) => if !lessKeys ks last u.1 then u.2 + 1 else acc) 0)
-    let round1 := (qs.map pos).foldl Nat.min union.length
-    decide (round1 ≥ sortLimit l)
-
-/-- walk upstream from the two-pass command at position j to the nearest command that retains its result -/
-def classAt (cs : List PCmd) (n : Nat) (first : Option Nat) (sh : List (List Table)) (j : Nat) : Nat → Option String
-  | 0 => none
-  | i + 1 =>
-    match cs[i]? with
-    | some (.base (.tail _)) => none
-    | some (.stats _ by_) =>
-      if n > 1 && first == some i then some "stats-merger"
-      else if by_.isNone && first != some i then some "stats-noby-reextracted"
-      else none
-    | some (.sort l ks) =>
-      if i + 1 < j then some "sort-mutated"
-      else if n > 1 && first == some i && !secondPassSafe (cs.take (i + 1)) l ks sh then some "sort-merger"
-      else none
-    | _ => classAt cs n first sh j i
-
-def firstSome : List (Option String) → Option String
-  | [] => none
-  | some x :: _ => some x
-  | none :: r => firstSome r
-
-def classOf (cs : List PCmd) (n : Nat) (sh : List (List Table)) : Option String :=
-  let first := mergeIdx cs 0
-  let rew := firstSome ((List.range cs.length).map (fun j =>
-    if ((cs[j]?).map PCmd.twoPass).getD false then classAt cs n first sh j j else none))
-  match rew with
-  | some c => some c
-  | none =>
-    match first with
-    | none => none
-    | some mi =>
-      if n ≤ 1 then none else
-      match cs[mi]? with
-      | some (.sort _ _) =>
-        let rec scan : List PCmd → Option String
-          | [] => none
-          | .base (.head _) :: _ | .base (.tail _) :: _ | .base (.dedup _) :: _ => none
-          | .sort _ _ :: _ | .stats _ _ :: _ => some "sort-merger-order-dropped"
-          | _ :: r => scan r
-        scan (cs.drop (mi + 1))
-      | some (.stats aggs none) =>
-        if aggs.any (fun a => a.fn != .count) && (chainResults (cs.take mi) sh).any List.isEmpty
-        then some "stats-empty-partial" else none
-      | _ => none
 
 end SigModel.PipePlan
